@@ -404,15 +404,16 @@ def check_requirement_rebinding(ctx, R="C14.rebind"):
     )
     model = ctx.model
     fn = model.func(RQ, "PendingRequirement.compile")
-    cl = [f for f in ast.walk(fn) if isinstance(f, ast.FunctionDef) and f.name == "closure"]
+    cl = [f for f in ast.walk(fn) if isinstance(f, ast.FunctionDef) and f is not fn and any(isinstance(a, ast.Attribute) and a.attr == "__globals__" for a in ast.walk(f))]
     if not cl:
         raise AnalysisError("shape not recognised: PendingRequirement.compile.closure")
     c = cl[0]
+    nsv = set(lib.locals_assigned(c, lambda v: isinstance(v, ast.Attribute) and v.attr == "__globals__"))  # the module namespace dict
     writes = []
     for n in walk_local(c):
         if isinstance(n, ast.Assign):
             for t in n.targets:
-                if isinstance(t, ast.Subscript) and unparse(t.value) == "namespace":
+                if isinstance(t, ast.Subscript) and unparse(t.value) in nsv:
                     writes.append(("namespace", n))
                 if isinstance(t, ast.Attribute) and t.attr == "cell_contents":
                     writes.append(("cell", n))
@@ -423,7 +424,7 @@ def check_requirement_rebinding(ctx, R="C14.rebind"):
         restored = False
         for t in tries:
             fin = " ".join(unparse(s) for s in t.finalbody)
-            if (kind == "namespace" and "namespace[" in fin) or (kind == "cell" and "cell_contents" in fin):
+            if (kind == "namespace" and any(f"{v}[" in fin for v in nsv)) or (kind == "cell" and "cell_contents" in fin):
                 restored = True
         if restored:
             ctx.ok(R, n, f"{kind} rebinding is undone in a finally")
